@@ -6,6 +6,8 @@ import Sio.Lemmas.ServerNI
 namespace Sio.Server
 open Sio.Rooms
 
+set_option linter.unusedSimpArgs false
+
 /-- same outputs, and successor states that agree outside transport `t` -/
 def Loc (t : Eio) (x y : Srv × List Out) : Prop := x.2 = y.2 ∧ strip t x.1 = strip t y.1
 
@@ -325,5 +327,221 @@ theorem loc_handleDisconnect {cfg : Cfg} (hst : cfg.script.Stable) {s : Srv} (h 
     simp only [Bool.not_true, Bool.false_eq_true, if_false]
     rw [endSession_false_eq, endSession_false_eq, hst.disc (strip t s).nDisc s.nDisc]
     exact ⟨rfl, strip_ending s sid ns _ _⟩
+
+theorem mem_socks_strip {t t' : Eio} (hne : t' ≠ t) (s : Srv) :
+    t' ∈ (strip t s).socks ↔ t' ∈ s.socks := by
+  simp only [strip, List.mem_filter]
+  constructor
+  · exact fun h => h.1
+  · exact fun h => ⟨h, by simp [hne]⟩
+
+theorem strip_connectedN {t t' : Eio} (hne : t' ≠ t) (s : Srv) (ns : Ns) (a b : Nat) :
+    strip t { connected s (roomsAfterConnect s.rooms ns t' (sidName s.nextSid)) with nConn := a } =
+      strip t { connected (strip t s)
+        (roomsAfterConnect (strip t s).rooms ns t' (sidName (strip t s).nextSid)) with nConn := b } :=
+  strip_connected hne s ns (sidName s.nextSid)
+
+theorem strip_refused {t : Eio} (s : Srv) (a b : Nat) :
+    strip t { s with nextSid := s.nextSid + 1, nConn := a } =
+      strip t { strip t s with nextSid := (strip t s).nextSid + 1, nConn := b } := by
+  have h := no_t_strip t s.rooms
+  simp only [strip, List.filter_filter, Bool.and_self, filter_all_of_no_t h]
+
+theorem loc_handleConnect {cfg : Cfg} (hst : cfg.script.Stable) {s : Srv} (h : WF s) {t t' : Eio}
+    (hne : t' ≠ t) (nsp : Option Str) (data : Option J) :
+    Loc t (handleConnect cfg s t' nsp data) (handleConnect cfg (strip t s) t' nsp data) := by
+  have hu := h.strip t
+  have hsid : sidOf (strip t s).rooms (nsp.getD ['/']) t' = sidOf s.rooms (nsp.getD ['/']) t' :=
+    sidOf_strip hne _
+  by_cases hearly : isServed cfg (nsp.getD ['/']) = false ∨
+      (sidOf s.rooms (nsp.getD ['/']) t').isSome = true
+  · rw [handleConnect_refused_early cfg s t' nsp data hearly,
+      handleConnect_refused_early cfg (strip t s) t' nsp data (by rw [hsid]; exact hearly),
+      sendTo_strip hne]
+    exact loc_id t s _
+  · have hs : isServed cfg (nsp.getD ['/']) = true := by
+      cases hq : isServed cfg (nsp.getD ['/']) with
+      | true => rfl
+      | false => exact absurd (Or.inl hq) hearly
+    have hn : sidOf s.rooms (nsp.getD ['/']) t' = none := by
+      cases hq : sidOf s.rooms (nsp.getD ['/']) t' with
+      | none => rfl
+      | some x => exact absurd (Or.inr (by rw [hq]; rfl)) hearly
+    have hn' := hsid.trans hn
+    by_cases ht : t' ∈ s.socks
+    · have ht' := (mem_socks_strip hne s).mpr ht
+      cases hr : resolve cfg.reg (nsp.getD ['/']) (.str "connect".toList)
+          (.str (sidName s.nextSid) :: authArgs data) with
+      | error e =>
+        rw [handleConnect_resolve_error h cfg data hs hn ht hr,
+          handleConnect_resolve_error hu cfg data hs hn' ht' hr]
+        exact ⟨rfl, strip_connected hne s _ _⟩
+      | ok r =>
+        cases r with
+        | fn slot a =>
+          rw [handleConnect_handler h cfg data hs hn ht (Or.inl hr),
+            handleConnect_handler hu cfg data hs hn' ht' (Or.inl hr),
+            hst.conn (strip t s).nConn s.nConn]
+          cases cfg.script.onConnect s.nConn
+          · exact ⟨rfl, strip_connectedN hne s _ _ _⟩
+          · exact ⟨rfl, strip_refused s _ _⟩
+          · exact ⟨rfl, strip_refused s _ _⟩
+          · exact ⟨rfl, strip_connectedN hne s _ _ _⟩
+        | clsCall slot a =>
+          rw [handleConnect_handler h cfg data hs hn ht (Or.inr hr),
+            handleConnect_handler hu cfg data hs hn' ht' (Or.inr hr),
+            hst.conn (strip t s).nConn s.nConn]
+          cases cfg.script.onConnect s.nConn
+          · exact ⟨rfl, strip_connectedN hne s _ _ _⟩
+          · exact ⟨rfl, strip_refused s _ _⟩
+          · exact ⟨rfl, strip_refused s _ _⟩
+          · exact ⟨rfl, strip_connectedN hne s _ _ _⟩
+        | clsNoMethod =>
+          rw [handleConnect_no_handler h cfg data hs hn ht (Or.inr hr),
+            handleConnect_no_handler hu cfg data hs hn' ht' (Or.inr hr)]
+          exact ⟨rfl, strip_connected hne s _ _⟩
+        | notHandled =>
+          rw [handleConnect_no_handler h cfg data hs hn ht (Or.inl hr),
+            handleConnect_no_handler hu cfg data hs hn' ht' (Or.inl hr)]
+          exact ⟨rfl, strip_connected hne s _ _⟩
+    · have ht' : t' ∉ (strip t s).socks := fun hh => ht ((mem_socks_strip hne s).mp hh)
+      rw [handleConnect_no_environ h cfg data hs hn ht,
+        handleConnect_no_environ hu cfg data hs hn' ht']
+      exact ⟨rfl, strip_connected hne s _ _⟩
+
+/-! ### frames -/
+
+theorem handleFrame_tooMany (dec : Str → Except Err (Packet × Nat)) (cfg : Cfg) {s : Srv}
+    {t t0 : Eio} {v : J} {part : Partial}
+    (hf : s.binbuf.find? (fun e => e.1 = t) = some (t0, part)) (h1 : part.need ≤ part.got.length) :
+    handleFrame dec cfg s t v = (s, [.raised .valueError]) := by
+  unfold handleFrame; rw [hf]; dsimp only; rw [if_pos h1]
+
+theorem handleFrame_more (dec : Str → Except Err (Packet × Nat)) (cfg : Cfg) {s : Srv}
+    {t t0 : Eio} {v : J} {part : Partial}
+    (hf : s.binbuf.find? (fun e => e.1 = t) = some (t0, part)) (h1 : ¬ part.need ≤ part.got.length)
+    (h2 : part.need ≠ (part.got ++ [v]).length) :
+    handleFrame dec cfg s t v = (storeBin s t part v, []) := by
+  unfold handleFrame; rw [hf]; dsimp only; rw [if_neg h1, if_neg h2]; rfl
+
+theorem handleFrame_reconErr (dec : Str → Except Err (Packet × Nat)) (cfg : Cfg) {s : Srv}
+    {t t0 : Eio} {v : J} {part : Partial} {e : Err}
+    (hf : s.binbuf.find? (fun e => e.1 = t) = some (t0, part)) (h1 : ¬ part.need ≤ part.got.length)
+    (h2 : part.need = (part.got ++ [v]).length) (h3 : reconData part (part.got ++ [v]) = .error e) :
+    handleFrame dec cfg s t v = (storeBin s t part v, [.raised e]) := by
+  unfold handleFrame
+  rw [hf]
+  dsimp only
+  rw [if_neg h1, if_pos h2]
+  unfold reconData at h3
+  cases hd : part.pkt.data with
+  | none => rw [hd] at h3; cases h3
+  | some j => rw [hd] at h3; dsimp only at h3 ⊢; rw [h3]; rfl
+
+theorem dropBin_strip (t t' : Eio) (s : Srv) : dropBin (strip t s) t' = strip t (dropBin s t') := by
+  simp only [dropBin, strip, List.filter_filter, Bool.and_comm]
+
+theorem strip_storeBin {t t' : Eio} (hne : t' ≠ t) (s : Srv) (part : Partial) (v : J) :
+    strip t (storeBin s t' part v) = strip t (storeBin (strip t s) t' part v) := by
+  refine strip_binbuf s (fun b => setBin b t' { part with got := part.got ++ [v] }) ?_
+  have key : ∀ b : List (Eio × Partial),
+      (setBin b t' { part with got := part.got ++ [v] }).filter (fun e => e.1 != t) =
+        setBin (b.filter (fun e => e.1 != t)) t' { part with got := part.got ++ [v] } := by
+    intro b
+    induction b with
+    | nil => rfl
+    | cons a b ih =>
+      unfold setBin at ih ⊢
+      simp only [List.map_cons, List.filter_cons]
+      by_cases ha : a.1 = t'
+      · have : (t' != t) = true := by simp [hne]
+        have h2 : (a.1 != t) = true := by rw [ha]; exact this
+        simp only [ha, if_true, this, h2, List.map_cons, ih]
+      · simp only [ha, if_false]
+        by_cases hb : (a.1 != t) = true
+        · simp only [hb, if_true, List.map_cons, ha, if_false, ih]
+        · simp only [hb, if_false, ih]
+          rfl
+  show (setBin s.binbuf t' _).filter _ = (setBin (s.binbuf.filter _) t' _).filter _
+  rw [key, key, List.filter_filter]
+  simp only [Bool.and_self]
+
+theorem strip_pushBin {t : Eio} (s : Srv) (x : Eio × Partial) :
+    strip t { s with binbuf := s.binbuf ++ [x] } =
+      strip t { strip t s with binbuf := (strip t s).binbuf ++ [x] } := by
+  refine strip_binbuf s (fun b => b ++ [x]) ?_
+  simp only [List.filter_append, List.filter_filter, Bool.and_self]
+
+theorem loc_dispatchPacket {cfg : Cfg} (hst : cfg.script.Stable) {s : Srv} (h : WF s) {t t' : Eio}
+    (hne : t' ≠ t) (p : Packet) (n : Nat) :
+    Loc t (dispatchPacket cfg s t' p n) (dispatchPacket cfg (strip t s) t' p n) := by
+  unfold dispatchPacket
+  by_cases h0 : p.type = CONNECT
+  · simp only [h0, if_true]; exact loc_handleConnect hst h hne _ _
+  · by_cases h1 : p.type = DISCONNECT
+    · simp only [h0, h1, if_false, if_true]; exact loc_handleDisconnect hst h hne _ _
+    · by_cases h2 : p.type = EVENT
+      · simp only [h0, h1, h2, if_false, if_true]; exact loc_handleEvent hst h hne _ _ _
+      · by_cases h3 : p.type = ACK
+        · simp only [h0, h1, h2, h3, if_false, if_true]; exact loc_handleAck h hne _ _ _
+        · by_cases h4 : (p.type = BINARY_EVENT || p.type = BINARY_ACK) = true
+          · simp only [h0, h1, h2, h3, h4, if_false, if_true]
+            exact ⟨rfl, strip_pushBin s _⟩
+          · simp only [h0, h1, h2, h3, h4, if_false]
+            exact loc_id t s _
+
+theorem loc_handleFrame {dec : Str → Except Err (Packet × Nat)} {cfg : Cfg} (hst : cfg.script.Stable)
+    {s : Srv} (h : WF s) {t t' : Eio} (hne : t' ≠ t) (v : J) :
+    Loc t (handleFrame dec cfg s t' v) (handleFrame dec cfg (strip t s) t' v) := by
+  have hfind : (strip t s).binbuf.find? (fun e => e.1 = t') = s.binbuf.find? (fun e => e.1 = t') :=
+    find_filter_ne _ (fun hh => hne hh.symm)
+  cases hf : s.binbuf.find? (fun e => e.1 = t') with
+  | none =>
+    rw [handleFrame_text dec cfg hf, handleFrame_text dec cfg (hfind.trans hf)]
+    cases frameDecode dec v with
+    | error e => exact loc_id t s _
+    | ok pn => exact loc_dispatchPacket hst h hne pn.1 pn.2
+  | some x =>
+    obtain ⟨t0, part⟩ := x
+    have hf' := hfind.trans hf
+    by_cases h1 : part.need ≤ part.got.length
+    · rw [handleFrame_tooMany dec cfg hf h1, handleFrame_tooMany dec cfg hf' h1]
+      exact loc_id t s _
+    · by_cases h2 : part.need = (part.got ++ [v]).length
+      · cases h3 : reconData part (part.got ++ [v]) with
+        | error e =>
+          rw [handleFrame_reconErr dec cfg hf h1 h2 h3, handleFrame_reconErr dec cfg hf' h1 h2 h3]
+          exact ⟨rfl, strip_storeBin hne s part v⟩
+        | ok d =>
+          rw [handleFrame_last dec cfg hf h1 h2 h3, handleFrame_last dec cfg hf' h1 h2 h3,
+            dropBin_strip]
+          have hw : WF (dropBin s t') := ⟨h.toWF0.filterBin _, h.pendingNil⟩
+          by_cases h4 : part.pkt.type = BINARY_EVENT
+          · rw [if_pos h4, if_pos h4]; exact loc_handleEvent hst hw hne _ _ _
+          · rw [if_neg h4, if_neg h4]; exact loc_handleAck hw hne _ _ _
+      · rw [handleFrame_more dec cfg hf h1 h2, handleFrame_more dec cfg hf' h1 h2]
+        exact ⟨rfl, strip_storeBin hne s part v⟩
+
+/-- inputs of a bystander transport -/
+def ofOther (t : Eio) : Input → Bool
+  | .eioConnect t' => t' != t
+  | .frame t' _ => t' != t
+  | _ => false
+
+/-- **locality**: an input of another transport does to `strip t s` what it does to `s` -/
+theorem loc_step {dec : Str → Except Err (Packet × Nat)} {cfg : Cfg} (hst : cfg.script.Stable)
+    {s : Srv} (h : WF s) {t : Eio} {i : Input} (hi : ofOther t i = true) :
+    Loc t (step dec cfg s i) (step dec cfg (strip t s) i) := by
+  cases i with
+  | eioConnect t' =>
+    rw [step, step]
+    refine ⟨rfl, ?_⟩
+    have hno := no_t_strip t s.rooms
+    simp only [strip, List.filter_append, List.filter_filter, Bool.and_self,
+      filter_all_of_no_t hno]
+  | frame t' v => rw [step, step]; exact loc_handleFrame hst h (by simpa [ofOther] using hi) v
+  | eioLost _ _ | emit _ _ _ _ _ _ | call _ _ _ _ _ | apiDisconnect _ _ | enterRoom _ _ _
+  | leaveRoom _ _ _ | closeRoom _ _ | rooms _ _ | getSession _ _ | saveSession _ _ _
+  | sessionBlock _ _ _ _ | settle => cases hi
 
 end Sio.Server
